@@ -4,7 +4,8 @@
        (e.g. a build result only while a build is in progress) and what X sent — the entries of O whose sender is X, in order —
        must be the concatenation of the model's outputs (within one step the order is free: a HashSet is iterated);
    (2) delivery: for every actor X and every sender Y (a target or the root), the messages X consumed from Y are a prefix of the
-       messages relayed to X from Y, in the same order — the per-sender FIFO assumption of Sys.exec (LDeliverAt). *)
+       messages relayed to X from Y, in the same order — the per-sender FIFO assumption of Sys.exec (LDeliverAt);
+   (3) the whole run is ONE execution of Sys.exec (see replay_global): the theorems about reachable states speak about it. *)
 open Model
 open Drv_util
 open Drv_actor
@@ -27,11 +28,100 @@ let sender_of_msg (m : msg) : string =
 
 let rec is_prefix a b = match a, b with [], _ -> true | x :: a', y :: b' -> x = y && is_prefix a' b' | _ :: _, [] -> false
 
+let rec nat_of_int (i : int) : nat = if i <= 0 then O else S (nat_of_int (i - 1))
+
+let index_of (x : 'a) (l : 'a list) : int option =
+  let rec go i = function [] -> None | y :: r -> if x = y then Some i else go (i + 1) r in
+  go 0 l
+
+let parse_out (tok : string) : out =
+  if String.length tok > 4 && String.sub tok 0 4 = "ERR:" then OErr (n_of_int (int_of_string (String.sub tok 4 (String.length tok - 4))))
+  else
+    match dest_of tok with
+    | Some "R" -> OMsg (ARoot, msg_of tok)
+    | Some d -> OMsg (ATarget (n_of_int (int_of_string d)), msg_of tok)
+    | None -> failwith ("bad output " ^ tok)
+
+(* (3) the whole run as ONE execution of Sys.exec: the recorded events, in the order the hooks saw them, become labels —
+   a consumed message = LDeliverAt at the position of that message in the model inbox (refused when an earlier message of the
+   same sender is still there, or when nobody has sent it), a change notice = LChange (the environment) + LInval, a build
+   result = LBuildDone, a termination = LTermActor, before which the root is advanced: it takes the entries addressed to it in
+   the RECORDED relay order (LRootAt), leaves its loop when it can (LRootIdle), and when it can do neither the run was ended by
+   the harness (LSignal, LRootSignal).  Every label must be enabled; the status `run` returned must be the model's. *)
+let replay_global (watch : bool) (g : graph) (roots : n list) (ev_all : string list) (obs_all : string list) (status : string) :
+    string option =
+  let s = ref (init_sys g roots) in
+  let err = ref None in
+  let fail m = if !err = None then err := Some m in
+  let step what l = match exec late_ack watch !s l with Some s1 -> s := s1; true | None -> fail (what ^ ": the model refuses this step"); false in
+  let root_feed = ref (List.filter (fun tok -> dest_of tok = Some "R" || (String.length tok > 4 && String.sub tok 0 4 = "ERR:")) obs_all) in
+  let signalled = ref false in
+  (* advance the root until the termination message for t is out (or nothing more can be done) *)
+  let advance_root () =
+    let fuel = ref 100000 in
+    let go = ref true in
+    while !go && !fuel > 0 && !err = None do
+      decr fuel;
+      match phase_of !s with
+      | PRun -> (
+          match exec late_ack watch !s LRootIdle with
+          | Some s1 -> s := s1
+          | None -> (
+              match (if watch then [] else !root_feed) with
+              | tok :: rest -> (
+                  match index_of (parse_out tok) (rootq_of !s) with
+                  | Some i -> if step ("root takes " ^ tok) (LRootAt (nat_of_int i)) then root_feed := rest
+                  | None -> fail ("the root took " ^ tok ^ " which is not in the model's root queue"))
+              | [] ->
+                  (* nothing to take, cannot leave: the harness ended the run *)
+                  signalled := true;
+                  if step "signal" LSignal then ignore (step "root handles the signal" LRootSignal)))
+      | PWaitTerm ->
+          signalled := true;
+          if step "signal" LSignal then ignore (step "root handles the signal" LRootSignal)
+      | _ -> go := false
+    done
+  in
+  List.iteri
+    (fun k tok ->
+      if !err = None then
+        match String.index_opt tok '@' with
+        | None -> fail ("bad event " ^ tok)
+        | Some i -> (
+            let t = n_of_int (int_of_string (String.sub tok 0 i)) in
+            let e = String.sub tok (i + 1) (String.length tok - i - 1) in
+            let what = Printf.sprintf "event #%d %s" k tok in
+            match parse_ev e with
+            | EMsg m -> (
+                match index_of m (inbox_of !s t) with
+                | Some j -> ignore (step what (LDeliverAt (t, nat_of_int j, true)))
+                | None -> fail (what ^ ": the message is not in the model inbox (nobody has sent it yet)"))
+            | EInval ->
+                if not (in_slot !s t) then ignore (step (what ^ " (change reported)") (LChange [ t ]));
+                if !err = None then ignore (step what (LInval (t, true)))
+            | EBuildDone r -> ignore (step what (LBuildDone (t, r)))
+            | ETerm ->
+                if not (in_termq !s t) then advance_root ();
+                if !err = None then ignore (step what (LTermActor t))))
+    ev_all;
+  if !err = None then begin
+    (* the end of the run: every actor has exited *)
+    (match phase_of !s with PTerminating _ -> ignore (exec late_ack watch !s LJoin |> function Some s1 -> s := s1 | None -> ()) | _ -> ());
+    let model_status =
+      match phase_of !s with
+      | PTerminating SOk | PExited SOk -> if !signalled then "-" else "ok"
+      | PTerminating (SErr t) | PExited (SErr t) -> Printf.sprintf "err:%d" (int_of_n t)
+      | PRun | PWaitTerm -> "running"
+    in
+    if model_status <> status then fail (Printf.sprintf "run returned %s, the model execution ends with %s" status model_status)
+  end;
+  !err
+
 let run (cases : string) : unit =
   List.iter
     (fun line ->
       match split_sp line with
-      | [ "V"; id; _watch; roots; targets; _failing; _rounds; _status; e; o ] ->
+      | [ "V"; id; watch; roots; targets; _failing; _rounds; status; e; o ] ->
           let roots = ids ',' roots in
           let ev_all = if e = "-" then [] else String.split_on_char ';' e in
           let obs_all = if o = "-" then [] else String.split_on_char ';' o in
@@ -110,6 +200,12 @@ let run (cases : string) : unit =
                       :: !problems)
                 senders)
             specs;
+          (* (3) the whole run as one execution of the system model *)
+          (match
+             replay_global (watch = "1") (graph_of_list (List.map (fun (x, k, d) -> (x, (k, d))) specs)) roots ev_all obs_all status
+           with
+           | Some m -> problems := ("system: " ^ m) :: !problems
+           | None -> ());
           (* events or outputs of something that is not an actor of the graph *)
           List.iter
             (fun tok ->
